@@ -1230,6 +1230,9 @@ func run(c *core.Ctx) {
 	if c.Shard == 0 {
 		literalLeg(c)
 	}
+	if c.Shard == 1 {
+		parenLeg(c)
+	}
 }
 
 // ------------------------------------------------------------------ replay
@@ -1238,6 +1241,11 @@ func replay(c *core.Ctx, raw json.RawMessage) {
 	var lc litCase
 	if err := json.Unmarshal(raw, &lc); err == nil && lc.Leg == "literal" {
 		replayLiteral(c, lc)
+		return
+	}
+	var pc parenCase
+	if err := json.Unmarshal(raw, &pc); err == nil && pc.Leg == "parens" {
+		replayParen(c, pc)
 		return
 	}
 	var cs caseT
